@@ -137,8 +137,7 @@ SimpleQuadric SurfaceTranslator::operator()(SimpleQuadric const& other) const
     for (auto i = to_int(Axis::x); i < to_int(Axis::size_); ++i)
     {
         first[i] -= 2 * second[i] * origin[i];
-        zeroth += second[i] * ipow<2>(origin[i])
-                  - 2 * other.first()[i] * origin[i];
+        zeroth += second[i] * ipow<2>(origin[i]) - other.first()[i] * origin[i];
     }
     return SimpleQuadric{second, first, zeroth};
 }
